@@ -187,6 +187,15 @@ func main() {
 			if err != nil {
 				fail("encode-error", "ConvertToRawFrame", "%v", err)
 			} else {
+				// the raw frame as returned (EncodeRawFrame below rewrites the length): declared length = body, and it converts back
+				if int(rf6.Header.BodyLength) != len(rf6.Body) {
+					fail("raw-length", "ConvertToRawFrame", "Header.BodyLength=%d, body has %d bytes", rf6.Header.BodyLength, len(rf6.Body))
+				}
+				if back, err := raw.ConvertFromRawFrame(rf6); err != nil {
+					fail("decode-error", "ConvertToRawFrame+ConvertFromRawFrame", "%v", err)
+				} else if d := gen.Equal(orig, back, fcheck.Ignore); d != "" {
+					fail("mismatch", "ConvertToRawFrame+ConvertFromRawFrame", "differs at %s", d)
+				}
 				// successive conversions must not share memory: encode the *previous* raw frame only now
 				mu.Lock()
 				key := fmt.Sprintf("%v|%s", v, comp)
@@ -214,9 +223,6 @@ func main() {
 					fail("decode-error", "ConvertToRawFrame+EncodeRawFrame", "bytes do not decode: %v", err)
 				} else if d := gen.Equal(orig, got, fcheck.Ignore); d != "" {
 					fail("mismatch", "ConvertToRawFrame+EncodeRawFrame", "differs at %s", d)
-				}
-				if int(rf6.Header.BodyLength) != len(rf6.Body) {
-					fail("raw-length", "ConvertToRawFrame", "Header.BodyLength=%d, body has %d bytes", rf6.Header.BodyLength, len(rf6.Body))
 				}
 			}
 			// path 7: EncodeHeader + EncodeBody
